@@ -103,13 +103,18 @@ def main(argv):
     try:
         t_repo = common.rebuild_repo()
         mod = importlib.import_module("props." + pid)
-        generated = False
-        if hasattr(mod, "regenerate"):
-            generated = bool(mod.regenerate(ctx))
-        rc, out, t_lean = common.lake_build()
+        import extract
+        extract.regenerate_all(common.REPO, common.LEAN)
+        generated = bool(getattr(mod, "USES_GENERATED", False))
+        rc, out, t_lean = common.lake_build(pid)
+        if rc == 2:
+            sys.stderr.write(out[-4000:])
+            raise Infra("model driver does not build")
         if rc != 0:
             if generated:
-                ctx.broke("lake build (regenerated obligations of %s)" % pid, out[-3000:])
+                # the theorems are re-checked against what the source says now: a failure is a broken
+                # proof obligation, not an infrastructure error -> failing-input search below
+                ctx.broke("lake build BioscrapeModel.Properties.%s (obligations regenerated from the source)" % pid, out[-3000:])
             else:
                 sys.stderr.write(out[-4000:])
                 raise Infra("lean project does not build")
